@@ -1,5 +1,4 @@
--- imports the model of UriCodec_feasibility.lean (without its `main`)
-import Probe.CodecLib
+import UriCodecLib
 namespace Codec
 /-- W3: header array `[]` comes back as `[""]` -/
 theorem w3_witness : roundTrip ⟨.header, .simple, false, .arr, [0x70]⟩ (.arr []) = .ok (.arr [[]]) := by rfl
